@@ -24,3 +24,41 @@ def sigint_at(algorithm, at):
         cur = float(algorithm.sweeps)
     if abs(cur - at) < 1e-9:
         os.kill(os.getpid(), signal.SIGINT)
+
+
+# ---- callbacks for the option scenarios (harness/c18_options.py) ------------------------------------
+
+LOG = []  # in-process event log: ('listener', priority, counter) | ('measure',) | ('save',)
+
+
+def _counter(algorithm):
+    if hasattr(algorithm, 'evolved_time'):
+        return round(float(abs(algorithm.evolved_time)), 9)
+    return float(getattr(algorithm, 'sweeps', -1))
+
+
+def log_listener(algorithm, tag):
+    """checkpoint listener connected with several priorities; records when it is called"""
+    LOG.append(('listener', tag, _counter(algorithm)))
+
+
+def m_flaky_key(results, psi, model, simulation, every=2, results_key='c18_sometimes'):
+    """writes its key only at every `every`-th measurement: exercises the fill-up with None"""
+    n = len(simulation.results.get('measurements', {}).get('measurement_index', []))
+    if n % every == 0:
+        results[results_key] = float(n)
+
+
+def m_raises(results, psi, model, simulation, at=(1,)):
+    """a measurement function with a bug: raises at the given measurement indices"""
+    n = len(simulation.results.get('measurements', {}).get('measurement_index', []))
+    if n in tuple(at):
+        raise ValueError('c18: deliberately failing measurement %d' % n)
+    results['c18_ok'] = float(n)
+
+
+def pp_energy_span(DL, *, key='energy_MPO'):
+    """post-processing step: max - min of a measurement series"""
+    import numpy as np
+    v = np.asarray(DL.sim.results['measurements'][key], dtype=float)
+    return float(v.max() - v.min())
